@@ -812,7 +812,7 @@ pub fn check_limit_binary(lc: &LimitCase, st: &mut Stats) -> CheckResult {
     }
     let Some(proc) = proc else { return Err(Fail::Inconclusive("cannot start the server executable".into())) };
     let addr = proc.addrs[0];
-    let to = std::time::Duration::from_secs(60);
+    let to = std::time::Duration::from_secs(240);
     let c = case::client_uuid(15, 1);
     let first = match exchange(addr, &crate::driver::req_add_version(c, Uuid::nil(), vec![Bytes::from_static(b"x")]), Encoding::ContentLength, &[], to) {
         Ok(r) => match crate::driver::decode(crate::driver::Endpoint::AddVersion, &r) {
@@ -856,6 +856,29 @@ pub fn check_limit_binary(lc: &LimitCase, st: &mut Stats) -> CheckResult {
             Err(e) => return Err(Fail::Inconclusive(format!("{what}: reading back: {e:?}"))),
         }
     }
+    if lc.delta > 0 && enc == Encoding::Chunked {
+        // the same oversized chunked body once more, this time also declaring a small
+        // Content-Length: whichever framing the server goes by, more than the limit arrives
+        let mut req2 = req.clone();
+        req2.headers.push((crate::driver::ALSO_CL_PSEUDO_HEADER.into(), b"4".to_vec()));
+        st.check();
+        match exchange(addr, &req2, Encoding::Chunked, &[1 << 20], to) {
+            Ok(r2) => {
+                if r2.status >= 500 || (200..300).contains(&r2.status) {
+                    return v(format!("{what}, sent chunked with an additional Content-Length: 4: answered {}", r2.status));
+                }
+                st.label(&format!("binary-limit:conflicting-framing:{}", r2.status));
+            }
+            Err(_) => st.label("binary-limit:conflicting-framing:connection-ended-before-a-status-line"),
+        }
+        // and nothing of it was stored
+        let back = if lc.snapshot { crate::driver::req_get_snapshot(c) } else { crate::driver::req_get_child(c, first) };
+        match exchange(addr, &back, Encoding::ContentLength, &[], to) {
+            Ok(r) if r.status == 404 => {}
+            Ok(r) => return v(format!("{what}, sent chunked with an additional Content-Length: 4: afterwards the read answers {} (expected 404: nothing stored)", r.status)),
+            Err(e) => return v(format!("{what}: afterwards the server no longer answers: {e:?}")),
+        }
+    }
     st.label(&format!("binary-limit{:+}:{}", lc.delta, resp.status));
     st.nontrivial(&("binary-limit", lc.snapshot, lc.delta, lc.sizes.is_empty()));
     Ok(())
@@ -889,7 +912,7 @@ pub fn check_declared_binary(dc: &DeclCase, st: &mut Stats) -> CheckResult {
     }
     let Some(mut proc) = proc else { return Err(Fail::Inconclusive("cannot start the server executable".into())) };
     let addr = proc.addrs[0];
-    let to = std::time::Duration::from_secs(30);
+    let to = std::time::Duration::from_secs(240);
     let c = case::client_uuid(15, 3);
     let first = match exchange(addr, &crate::driver::req_add_version(c, Uuid::nil(), vec![Bytes::from_static(b"x")]), Encoding::ContentLength, &[], to) {
         Ok(r) => match crate::driver::decode(crate::driver::Endpoint::AddVersion, &r) {
@@ -1648,7 +1671,7 @@ pub fn run(id: &str, tier: Tier, seed: u64) -> Report {
             if mode == Mode::C15 && !rep.failed() && crate::props::binary::server_bin().is_some() {
                 let mut cases = vec![];
                 for snapshot in [false, true] {
-                    for (delta, sizes) in [(0i32, vec![]), (1, vec![]), (0, vec![1u32 << 20]), (-1, vec![])] {
+                    for (delta, sizes) in [(0i32, vec![]), (1, vec![]), (0, vec![1u32 << 20]), (1, vec![1u32 << 20]), (-1, vec![])] {
                         if tier == Tier::Quick && delta == -1 {
                             continue;
                         }
@@ -1774,7 +1797,7 @@ fn check_sock_c20(sc: &SCase20, st: &mut Stats) -> CheckResult {
         all.push((b.req, false));
     }
     for (k, (req, setup)) in all.iter().enumerate() {
-        let resp = match exchange(addr, req, if k % 2 == 0 { Encoding::ContentLength } else { Encoding::Chunked }, &[], std::time::Duration::from_secs(20)) {
+        let resp = match exchange(addr, req, if k % 2 == 0 { Encoding::ContentLength } else { Encoding::Chunked }, &[], std::time::Duration::from_secs(120)) {
             Ok(r) => r,
             Err(SockError::NoResponse(m)) | Err(SockError::Io(m)) => {
                 st.label("c20:socket:no-response");
@@ -1804,7 +1827,7 @@ fn check_sock_c20(sc: &SCase20, st: &mut Stats) -> CheckResult {
         crate::driver::req_get_snapshot(c),
     ];
     for req in &broken {
-        if let Ok(resp) = exchange(addr, req, Encoding::ContentLength, &[], std::time::Duration::from_secs(20)) {
+        if let Ok(resp) = exchange(addr, req, Encoding::ContentLength, &[], std::time::Duration::from_secs(120)) {
             if resp.status >= 500 {
                 st.label("c20:socket:server-error-response");
             }
